@@ -284,7 +284,8 @@ def option_eq(m, cfg, f, args, t):
             return Int.const(0)
         if a.variant == 0:
             return Int.const(1)
-        return m.compare(cfg.st, 'Eq', a.fields[0], b.fields[0])
+        r = structural_eq(m, cfg.st, a.fields[0], b.fields[0])
+        return r if r is not None else NotImplemented
     return NotImplemented
 
 
@@ -317,7 +318,13 @@ def partial_eq_default(m, cfg, f, args, t):
 
 def structural_eq(m, st, a, b):
     if isinstance(a, Int) and isinstance(b, Int):
-        return m.compare(st, 'Eq', a, b)
+        r = m.compare(st, 'Eq', a, b)
+        if isinstance(r, Atom):
+            # two unrelated symbols: a named (deterministic) truth value, so that later branches on it stay consistent
+            return Atom('eq(%r,%r)' % (a, b), {'s': 'bool', 'k': 'bool'})
+        return r
+    if isinstance(a, (Atom, Int)) and isinstance(b, (Atom, Int)):
+        return Atom('eq(%r,%r)' % (a, b), {'s': 'bool', 'k': 'bool'})
     if isinstance(a, Adt) and isinstance(b, Adt):
         if a.variant != b.variant:
             return Int.const(0)
